@@ -21,9 +21,12 @@ Inductive hcase :=
 | CGet (secret key : bytes) (ver : N) (stored : bytes)         (* process_value_from_get *)
 | CPair (secret : bytes) (a b : input)                         (* two inputs with one tag *)
 | CNonces (ns : list bytes)       (* the nonces of one client's consecutive reads, as sent *)
-| CInit (secret nonce : bytes) (rs : list record) (tag : bytes).
+| CInit (secret nonce : bytes) (rs : list record) (tag : bytes)
     (* init_state / new_nonce + get + check_hmac: the reply (rs, tag) as delivered to a read that
        sent [nonce] *)
+| COpen (hmac_secret : bytes) (kvs : list wrecord).
+    (* remove_and_check_hmacs on the records of a get reply / of a put-conflict reply, versions as
+       the i64 on the wire *)
 
 Definition cls_code (c : option cls) : N :=
   match c with
@@ -60,7 +63,11 @@ Fixpoint index_of {A} (e : A -> bool) (i : N) (l : list A) : N :=
                (accept, returning value, iff claimed tag = mac key message)
     - CPair  : [[serialisations equal]; [class]; [inputs equal]; [index in witnesses]]
     - CNonces: [[nonces_fresh]]                    (the premise of the replay theorems)
-    - CInit  : [key; message; delivered tag]       (accept, returning rs, iff tag = mac key message) *)
+    - CInit  : [key; message; delivered tag]       (accept, returning rs, iff tag = mac key message)
+    - COpen  : per record, in order: [[0]] when it is shorter than 32 bytes, else
+               [[1]; key; message; claimed tag; value]; the call succeeds (returning the values) iff
+               no record is short and every claimed tag = mac key message, else it fails at the
+               first record that is short or mismatches *)
 Definition hquery (c : hcase) : list bytes :=
   match c with
   | CShared s n rs => [s; ser_shared s n rs]
@@ -78,4 +85,11 @@ Definition hquery (c : hcase) : list bytes :=
         [index_of (fun w => beq w (a, b)) 1 witnesses] ]
   | CNonces ns => [[b2n (nonces_fresh ns)]]
   | CInit s n rs t => [s; ser_shared s n rs; t]
+  | COpen hs kvs =>
+      flat_map (fun r : wrecord =>
+                  let '(k, v, st) := r in
+                  match split_tag st with
+                  | None => [[0]]
+                  | Some (y, t) => [[1]; hs; ser_value k (wire_version v) y; t; y]
+                  end) kvs
   end.
